@@ -1,10 +1,10 @@
 //! queue family: FixedSizeQueue<T,N>, Queue, RelocatableQueue; element `Tracked` (drop accounting)
 //! or `Plain` (Copy: `get`, `get_unchecked`). `flavour` = storage + 3 * element.
-use crate::{CAPS, Case, begin, finish, note_reloc};
-use checks_bb::models::queue::*;
-use checks_bb::models::{Elem, Known, Plain, direct, op_sequences};
-use checks_bb::reloc::Block;
-use checks_bb::tracked::Tracked;
+use crate::families::{CAPS, Case, begin, finish, note_reloc};
+use crate::models::queue::*;
+use crate::models::{Elem, Known, Plain, direct, op_sequences};
+use crate::reloc::Block;
+use crate::tracked::Tracked;
 use iceoryx2_bb_container::queue::{FixedSizeQueue, Queue, RelocatableQueue};
 use proptest::prelude::*;
 use std::cell::RefCell;
@@ -70,7 +70,7 @@ where
     }
 }
 
-fn run_case(c: &Case<QOp>, obs: &mut Obs, known: &Known) -> Result<(), Failure> {
+pub fn run_case(c: &Case<QOp>, obs: &mut Obs, known: &Known) -> Result<(), Failure> {
     begin(known);
     let r = if c.flavour < 3 { run_elem::<Tracked>(c, obs, known) } else { run_elem::<Plain>(c, obs, known) };
     finish("queue", known, r)
@@ -80,7 +80,7 @@ pub fn parts(ctx: &mut Ctx) {
     let known = Known::none();
     let alphabet = qop_alphabet();
     let len = ctx.scale(7, 8);
-    let grid = crate::combos(6, |f, c| f % 3 != 1 && c == 0);
+    let grid = crate::families::combos(6, |f, c| f % 3 != 1 && c == 0);
     let cases = grid.iter().copied().flat_map(|(flavour, cap)| {
         op_sequences(&alphabet, len).map(move |ops| Case { flavour, cap, reloc: 0, ops })
     });
